@@ -159,7 +159,10 @@ def gen_together(r, ncases, parallel):
         ids = [f"t{i}" for i in range(n)]
         quants = r.shuffle([0, 2, 4, 8, 16, 32])[:n]
         for fid, q in zip(ids, quants):
-            ops.append(_fan_line(fid, "hwmon", r.chance(0.15), r.chance(0.3), True, r.chance(0.2), q, r.range(5, 90)))
+            # some fans take long to settle (the RPM keeps moving for dozens of polls after a PWM change): their analysis is
+            # long, and the others still have to wait for it (seed C16e: a time-out released the lock, not the fan)
+            drift = r.pick([0, 0, 0, 30, 45]) if q >= 8 else 0
+            ops.append(_fan_line(fid, "hwmon", r.chance(0.15), r.chance(0.3), True, r.chance(0.2), q, r.range(5, 90)) + (f" drift={drift}" if drift else ""))
         order = r.shuffle(ids)
         delays = ",".join(str(r.range(0, 3000)) for _ in order)
         ops.append(f"su.together fans={','.join(order)} delays_us={delays}")
